@@ -308,7 +308,13 @@ pub fn run(prop: &str, seed: u64, nhist: usize, trace_path: Option<&str>, rep: &
                     }
                     let mut vs = vec![];
                     if r.0 == Verdict::Panic {
-                        vs.push(format!("panic: {}", r.2));
+                        // right after reset a panic is an outcome a new decoder does not have (C14); on a used object
+                        // that was NOT reset no listed property promises anything
+                        if just_reset {
+                            vs.push(format!("panic: {}", r.2));
+                        } else {
+                            rep.drift(format!("panic of decompress() on a used LzmaDecoder that was not reset: {}", r.2), json!({"history": h}));
+                        }
                     }
                     if just_reset {
                         let mut f = mk(size_eff);
@@ -432,7 +438,11 @@ pub fn run(prop: &str, seed: u64, nhist: usize, trace_path: Option<&str>, rep: &
                 }
                 let mut vs = vec![];
                 if r.0 == Verdict::Panic {
-                    vs.push(format!("panic: {}", r.2));
+                    if just_reset {
+                        vs.push(format!("panic: {}", r.2));
+                    } else {
+                        rep.drift(format!("panic of decompress() on a used Lzma2Decoder that was not reset: {}", r.2), json!({"history": h}));
+                    }
                 }
                 if just_reset {
                     let mut f = Lzma2Decoder::new();
